@@ -346,6 +346,25 @@ func toolexecCmd(command string, args []string) (*exec.Cmd, error) {
 	// Split the flags from the package arguments, since we'll need
 	// to run 'go list' on the same set of packages.
 	flags, args := splitFlagsFromArgs(args)
+	// listFlags and listArgs are the build flags and packages for "go list".
+	listFlags, listArgs := flags, args
+	if command == "test" {
+		// Like "go test", flags can also follow the package list:
+		// only the leading non-flag arguments name packages.
+		n := 0
+		for n < len(args) && !strings.HasPrefix(args[n], "-") {
+			n++
+		}
+		rest := args[n:]
+		for i, arg := range rest {
+			if arg == "-args" || arg == "--args" {
+				rest = rest[:i] // the remainder belongs to the test binary
+				break
+			}
+		}
+		listFlags = append(flags[:len(flags):len(flags)], rest...)
+		listArgs = args[:n:n]
+	}
 	if hasHelpFlag(flags) {
 		out, _ := exec.Command("go", command, "-h").CombinedOutput()
 		fmt.Fprintf(os.Stderr, `
@@ -356,7 +375,7 @@ This command wraps "go %s". Below is its help:
 %s`[1:], command, command, out)
 		return nil, errJustExit(2)
 	}
-	for _, flag := range flags {
+	for _, flag := range listFlags {
 		if rxGarbleFlag.MatchString(flag) {
 			return nil, fmt.Errorf("garble flags must precede command, like: garble %s build ./pkg", flag)
 		}
@@ -368,7 +387,7 @@ This command wraps "go %s". Below is its help:
 
 	// Note that we also need to pass build flags to 'go list', such
 	// as -tags.
-	sharedCache.ForwardBuildFlags, _ = filterForwardBuildFlags(flags)
+	sharedCache.ForwardBuildFlags, _ = filterForwardBuildFlags(listFlags)
 	if command == "test" {
 		sharedCache.ForwardBuildFlags = append(sharedCache.ForwardBuildFlags, "-test")
 	}
@@ -406,7 +425,6 @@ This command wraps "go %s". Below is its help:
 	}
 	sharedCache.BinaryContentID = decodeBuildIDHash(splitContentID(binaryBuildID))
 
-	listArgs := args
 	if command == "run" {
 		// Like "go run", only the leading .go files or else the first argument
 		// name the package; the remaining arguments belong to the program.
